@@ -58,9 +58,46 @@ def _balanced_outer(t):
     return False
 
 
+GUARDS = set()     # names of helper functions verified to be pure stack/static guards (see guard_helpers)
+
+
+def guard_helpers(s):
+    """static void NAME(var self[, const char* x]) whose whole body is the stack/static guard
+    (throws ValueError when header(self)->alloc is AllocStack or AllocStatic, does nothing else, compiled in
+    only under CELLO_ALLOC_CHECK): a call `NAME(self[, ".."]);` is then the same as the inline
+    `#if CELLO_ALLOC_CHECK == 1 if (..) { throw(..); } #endif` block and is dropped by compact()."""
+    names = set()
+    for m in re.finditer(r'static\s+void\s+(\w+)\s*\(\s*var\s+self\s*(?:,\s*const\s+char\s*\*\s*\w+\s*)?\)\s*\{', s):
+        i = s.find('{', m.end() - 1)
+        d, j = 0, i
+        while j < len(s):
+            if s[j] == '{':
+                d += 1
+            elif s[j] == '}':
+                d -= 1
+                if d == 0:
+                    break
+            j += 1
+        b = s[i:j + 1]
+        b = re.sub(r'"(?:[^"\\]|\\.)*"', '""', b)
+        b = re.sub(r'\(\s*(?:var|intptr_t|char\s*\*)\s*\)', '', b)
+        b = re.sub(r'\bis\b', '==', b)
+        b = re.sub(r'\bor\b', '||', b)
+        b = re.sub(r'\s+', '', b)
+        al = r'header\(self\)->alloc'
+        thr = r'throw\(ValueError,""(?:,[^;{}]*)?\);'
+        g1 = r'if\(%s==AllocStack\|\|%s==AllocStatic\)\{%s\}' % (al, al, thr)
+        g2 = r'switch\(%s\)\{caseAllocStack:caseAllocStatic:%s(?:break;)?default:break;\}' % (al, thr)
+        if re.fullmatch(r'\{#ifCELLO_ALLOC_CHECK==1(?:%s|%s)#endif\}' % (g1, g2), b):
+            names.add(m.group(1))
+    return names
+
+
 def compact(b):
     """normal form of a function body (see module docstring)"""
     b = re.sub(r'"(?:[^"\\]|\\.)*"', '""', b)
+    for g in GUARDS:
+        b = re.sub(r'\b%s\s*\(\s*self\s*(?:,\s*""\s*)?\)\s*;' % re.escape(g), ' ', b)
     b = re.sub(r'#if\s+CELLO_\w+_CHECK\s*==\s*1\s*if\s*\([^{}]*\)\s*\{\s*throw\s*\([^;]*\)\s*;\s*\}\s*#endif', ' ', b)
     b = re.sub(r'\(\s*(?:const\s+)?(?:char\s*\*|int|size_t)\s*\)', '', b)
     b = re.sub(r'\bconst\s+', '', b)
@@ -98,9 +135,11 @@ Z0 = r"'\\0'"
 
 def generate(repo, emit, src, func_body):
     s = src('src/String.c')
+    GUARDS.clear()
+    GUARDS.update(guard_helpers(s))
 
     def fn(name):
-        b = func_body(s, r'static\s+\w+\s+%s\s*\([^)]*\)\s*\{' % name)
+        b = func_body(s, r'static\s+[\w\*\s]+?[\s\*]%s\s*\([^)]*\)\s*\{' % name)
         return b
 
     # ------------------------------------------------------------------ String_Assign
@@ -234,3 +273,24 @@ def generate(repo, emit, src, func_body):
                 else ('false', 'source: no NULL check after strstr')))
     else:
         emit('string_rem_checks', None)
+
+    # ------------------------------------------------------------------ observers: no state of their own
+    def whole(name, pats, inline=False):
+        b = fn(name)
+        if not b:
+            return False
+        c = compact(b)
+        if inline:
+            c = inline_locals(c, keep=set())
+        return any(re.fullmatch(p_, c) for p_ in pats)
+
+    hash_ok = whole('String_Hash', [r'\{struct String\*s=self;return hash_data\(s->val,strlen\(s->val\)\);\}',
+                                    r'\{return hash_data\(String_C_Str\(self\),(?:String_Len\(self\)|strlen\(String_C_Str\(self\)\))\);\}'], inline=True)
+    emit('string_hash_stateless', 'Definition string_hash_stateless : bool := true.   (* String_Hash is exactly hash_data(s->val, strlen(s->val)): no static, nothing remembered *)'
+         if hash_ok else None)
+    obs_ok = whole('String_Len', [r'\{struct String\*s=self;return strlen\(s->val\);\}', r'\{return strlen\(String_C_Str\(self\)\);\}']) and \
+        whole('String_C_Str', [r'\{struct String\*s=self;return s->val;\}']) and \
+        whole('String_Cmp', [r'\{return strcmp\(String_C_Str\(self\),c_str\(obj\)\);\}']) and \
+        whole('String_Mem', [r'\{struct C_Str\*c=instance\(obj,C_Str\);if\(c&&c->c_str\)\{return strstr\(String_C_Str\(self\),c->c_str\(obj\)\)(?:!=NULL)?;\}return false;\}'])
+    emit('string_observers_pure', 'Definition string_observers_pure : bool := true.   (* String_Len / C_Str / Cmp / Mem are single libc calls on s->val *)'
+         if obs_ok else None)
